@@ -133,4 +133,61 @@ theorem all_run (ops : List Op) : ∀ b : Backend, ∃ x, (run b ops).all = b.al
     obtain ⟨y, hy⟩ := ih (step b op)
     exact ⟨x ++ y, by simp only [run]; rw [hy, hx, List.append_assoc]⟩
 
+
+/-- everything held after a history was held before or was submitted during it -/
+theorem mem_all_run (ops : List Op) : ∀ (b : Backend) (x : Leaf), x ∈ (run b ops).all → x ∈ b.all ∨ Op.submit x ∈ ops := by
+  induction ops with
+  | nil => intro b x h; exact Or.inl h
+  | cons op ops ih =>
+    intro b x h
+    simp only [run] at h
+    rcases ih (step b op) x h with h1 | h1
+    · cases op with
+      | read => exact Or.inl h1
+      | sequence k ts => simp only [step] at h1; rw [all_sequence] at h1; exact Or.inl h1
+      | submit c =>
+        simp only [step] at h1
+        rcases all_queue b c with ⟨e, _, _⟩ | ⟨e, _, _⟩
+        · rw [e] at h1; exact Or.inl h1
+        · rw [e, List.mem_append, List.mem_singleton] at h1
+          rcases h1 with h1 | h1
+          · exact Or.inl h1
+          · subst h1; exact Or.inr (List.mem_cons_self ..)
+    · exact Or.inr (List.mem_cons_of_mem _ h1)
+
+/-- `cget` with the regenerated miss condition `Gen.sigCacheMiss` spelled out: a hit iff the cached
+    input equals the requested one (breaks if the source compares anything else). -/
+theorem cget_spec {Msg Sig : Type} [DecidableEq Msg] (c : Cache Msg Sig) (i : Msg) :
+    cget c i = match c with
+      | some (ci, s) => if ci = i then some s else none
+      | none => none := by
+  unfold cget Gen.sigCacheMiss
+  cases c with
+  | none => rfl
+  | some cs =>
+    obtain ⟨ci, s⟩ := cs
+    by_cases h : ci = i <;> simp [h]
+
+/-- the values of an earlier state are a prefix of the values of any later state -/
+theorem values_prefix (b1 : Backend) (ops : List Op) :
+    (run b1 ops).values.take b1.leaves.length = b1.values ∧ b1.leaves.length ≤ (run b1 ops).leaves.length := by
+  obtain ⟨x, hx⟩ := leaves_run ops b1
+  refine ⟨?_, by rw [hx]; simp⟩
+  simp only [Backend.values, hx, List.map_append]
+  rw [List.take_append_of_le_length (by simp)]
+  rw [List.take_of_length_le (by simp)]
+
+theorem leaves_prefix (b1 : Backend) (ops : List Op) (i : Nat) (hi : i < b1.leaves.length) :
+    (run b1 ops).leaves[i]? = b1.leaves[i]? := by
+  obtain ⟨x, hx⟩ := leaves_run ops b1
+  rw [hx, List.getElem?_append_left hi]
+
+open Merkle in
+/-- an audit path in a tree of at least two leaves is not empty -/
+theorem path_ne_nil {α Hash : Type} (leafH : α → Hash) (nodeH : Hash → Hash → Hash) (emptyH : Hash)
+    (m : Nat) (l : List α) (h : 2 ≤ l.length) : path leafH nodeH emptyH m l ≠ [] := by
+  rw [path]
+  simp only [show ¬ l.length < 2 by omega, dite_false]
+  by_cases hm : m < split l.length <;> simp [hm]
+
 end CTV.Model.FrontEnd
